@@ -105,10 +105,38 @@ class Crash(BaseException):
     pass
 
 
-def run_history_real(ops, V, cache_dir):
-    """drive the real cache; returns trace tokens and the list of (answer == uncached answer)"""
+def run_history_real(ops, V, cache_dir, inplace=False):
+    """drive the real cache; returns trace tokens and the list of (answer == uncached answer).
+    inplace: the caller keeps ONE set of argument arrays (z, the five profiles, the surface flux) for the whole history and overwrites their
+    contents before every request (a time loop that refills its buffers): same objects, different values - each request still is what its
+    VALUES say"""
     from bldfm.solver import steady_state_transport_solver
     import bldfm.cache as cmod
+    live = {}
+
+    def through_live(kw):
+        if not inplace:
+            return kw
+        kw = dict(kw)
+        for name in ("z", "srf_flx"):
+            a = np.asarray(kw[name], dtype=float)
+            key = (name, a.shape)
+            if key not in live:
+                live[key] = np.empty_like(a)
+            live[key][...] = a
+            kw[name] = live[key]
+        prof = []
+        for i, a in enumerate(kw["profiles"]):
+            a = np.asarray(a, dtype=float)
+            key = ("p%d" % i, a.shape)
+            if key not in live:
+                live[key] = np.empty_like(a)
+            live[key][...] = a
+            prof.append(live[key])
+        if ("ptuple", len(prof)) not in live:
+            live[("ptuple", len(prof))] = tuple(prof)
+        kw["profiles"] = live[("ptuple", len(prof))]
+        return kw
 
     def mk():
         class Rec(cmod.GreensFunctionCache):
@@ -125,7 +153,7 @@ def run_history_real(ops, V, cache_dir):
             cache = mk()
             continue
         r = op[1]
-        kw = kwargs_of(r, V)
+        kw = through_live(kwargs_of(r, V))
         if kind == "R":
             cache.last = None
             try:
@@ -250,7 +278,7 @@ def o_cache(case):
     ops = [tuple(o) for o in case["ops"]]
     d = tempfile.mkdtemp(prefix="c15-", dir=os.getcwd())
     try:
-        trace, transparent = run_history_real(ops, V, d)
+        trace, transparent = run_history_real(ops, V, d, inplace=bool(case.get("inplace")))
     finally:
         shutil.rmtree(d, ignore_errors=True)
     reqs = [o for o in ops if o[0] == "R"]
@@ -485,7 +513,10 @@ def run(rng, tier, deep):
         st["corr_cases"] += 1
         d = tempfile.mkdtemp(prefix="c15c-", dir=os.getcwd())
         try:
-            trace, _ = run_history_real(h, V, d)
+            inpl = bool(rng.random() < 0.4)
+            st["branches"]["argument arrays=%s" % ("one set of buffers overwritten in place" if inpl else "fresh per value")] = \
+                st["branches"].get("argument arrays=%s" % ("one set of buffers overwritten in place" if inpl else "fresh per value"), 0) + 1
+            trace, _ = run_history_real(h, V, d, inplace=inpl)
         finally:
             shutil.rmtree(d, ignore_errors=True)
         # the model line holds an extra request before every truncation (the harness' probe request): drop those answers
@@ -501,7 +532,7 @@ def run(rng, tier, deep):
             st["branches"]["op=" + op[0]] = st["branches"].get("op=" + op[0], 0) + 1
         if keep != trace:
             st["disagreements"].append(dict(what="cache history: impl trace %s vs model %s" % (" ".join(trace), " ".join(keep)), op=l[:600]))
-        run_oracle(st, o_cache, dict(ops=[list(o) for o in h]))
+        run_oracle(st, o_cache, dict(ops=[list(o) for o in h], inplace=inpl))
     run_oracle(st, o_signature, dict())
     for k in range(budget(tier, deep, 1, 3)):
         run_oracle(st, o_chdir, dict(steps=1 + k % 2))
@@ -528,7 +559,7 @@ def run(rng, tier, deep):
             st["disagreements"].append(dict(what="cache write protocol under interleaving: impl `%s` vs model `%s`" % (ro[:300], mo[:300]),
                                             op=C15proto.model_line(p)[:600]))
         run_oracle(st, o_proto, dict(steps=[list(x) for x in p]))
-    return finish(st, "histories over the base request and EVERY single-argument variation (the solver signature is enumerated with inspect.signature), "
+    return finish(st, "argument arrays passed as fresh objects or as ONE set of buffers overwritten in place between requests; histories over the base request and EVERY single-argument variation (the solver signature is enumerated with inspect.signature), "
                   "default and explicit halo, restarts (new cache object on the same directory), stores interrupted after a prefix of the bytes, entries "
                   "truncated from outside, two-process histories, interleavings of the write protocol's file-system steps (savez starts / completes, os.replace, constructor, lookup, process death) across up to four emulated processes sharing the directory; correspondence: hit/miss/error trace of every request vs the Lean state machine driven "
                   "with the cache configuration extracted from the source; oracle: answer bit-identical to the uncached solve, repeat = hit, every truncation "
